@@ -282,6 +282,8 @@ let rec p_value (v : value) =
 
 (* ------------------------------------------------------------------ cases *)
 let ic = ref false
+let want_known = ref false
+let known_extra = ref ""
 
 let str_of_ascii (s : string) : str =
   List.init (String.length s) (fun i -> n_of_int (Char.code s.[i]))
@@ -295,6 +297,58 @@ let rec compare_str (a : str) (b : str) : int =
 
 let res_char (r : res3 out) : char =
   match r with Ok T -> 't' | Ok F -> 'f' | Ok M -> 'm' | Panic _ -> 'p' | Err _ -> '?'
+
+(* ---- hash-order exploration -------------------------------------------------------
+   `run ord` evaluates something that asks the oracle `ord` for the iteration order of each
+   hash map.  All combinations of orders are enumerated depth-first (each call site
+   independently), up to a budget of leaves; beyond it the enumeration is cut and the
+   result is marked incomplete. *)
+let rec fact n = if n <= 1 then 1 else n * fact (n - 1)
+
+let nth_perm (l : 'a list) (idx : int) : 'a list =
+  (* idx in the factorial number system selects successive elements *)
+  let rec go l idx =
+    match l with
+    | [] -> []
+    | _ ->
+        let n = List.length l in
+        let f = fact (n - 1) in
+        let q = idx / f and r = idx mod f in
+        let x = List.nth l q in
+        x :: go (List.filteri (fun i _ -> i <> q) l) r in
+  go l idx
+
+let leaf_budget = ref 720
+
+let explore (run : (n list list -> n list list) -> 'a) : 'a list * bool =
+  let results = ref [] and leaves = ref 0 and complete = ref true in
+  let rec go (prefix : int array) =
+    if !leaves >= !leaf_budget then complete := false
+    else begin
+      let calls = ref 0 in
+      let sizes = ref [] in
+      let ord keys =
+        let k = !calls in
+        incr calls;
+        let n = List.length keys in
+        sizes := (k, n) :: !sizes;
+        if k < Array.length prefix then (if prefix.(k) = -1 then List.rev keys else nth_perm keys prefix.(k)) else keys in
+      let r = run ord in
+      let beyond = List.filter (fun (k, n) -> k >= Array.length prefix && n > 1) (List.rev !sizes) in
+      match beyond with
+      | [] -> incr leaves; results := r :: !results
+      | (j, n) :: _ ->
+          let choices =
+            if n <= 6 then List.init (fact n) (fun i -> i)
+            else (complete := false; [0; -1; 1; 5039]) in
+          List.iter (fun p ->
+              let pre = Array.make (j + 1) 0 in
+              Array.blit prefix 0 pre 0 (Array.length prefix);
+              pre.(j) <- p;
+              go pre) choices
+    end in
+  go [||];
+  (!results, !complete)
 
 let run_case (x : sx) : unit =
   match x with
@@ -378,39 +432,78 @@ let run_case (x : sx) : unit =
                                           | VObj kv -> kv
                                           | _ -> raise (Parse_error "doc must be an object")) (lst docs) in
             let sws = List.map (fun s -> int_of_string (atom s)) (lst sws) in
-            let reads_acc = ref [] in
+            let want_reads = dec_bool f_reads in
+            let res_parts = Buffer.create 256 and reads_parts = Buffer.create 256 in
             List.iter (fun sw ->
-                add " (res "; add (string_of_int sw);
-                if sw <> 0 then add " ?"
-                else begin
-                  let per_doc = ref [] in
-                  if docs <> [] then add " ";
-                  List.iter (fun kv ->
-                      let seen = Hashtbl.create 8 in
-                      let d : docq = fun k -> Hashtbl.replace seen (List.map int_of_n k) k; Ok (obj_find kv k) in
-                      let r3 = solve_rule3 o r.r_det d in
-                      Buffer.add_char b (res_char r3);
-                      let keys = Hashtbl.fold (fun _ k acc -> k :: acc) seen [] in
-                      per_doc := (if res_char r3 = 'p' then None else Some (List.sort compare_str keys)) :: !per_doc) docs;
-                  reads_acc := (sw, List.rev !per_doc) :: !reads_acc
-                end;
-                add ")") sws;
-            if dec_bool f_reads then
-              List.iter (fun (sw, per_doc) ->
-                  add " (reads "; add (string_of_int sw);
-                  List.iter (fun keys ->
-                      match keys with
-                      | None -> add " (panic)"
-                      | Some keys ->
-                          add " ("; List.iteri (fun i k -> if i > 0 then add " "; p_str k) keys; add ")") per_doc;
-                  add ")") (List.rev !reads_acc);
+                let sws = { sw_coalesce = sw land 1 <> 0; sw_shake = sw land 2 <> 0;
+                            sw_rewrite = sw land 4 <> 0; sw_matrix = sw land 8 <> 0 } in
+                (* one run of optimise + solve under a given hash-order oracle *)
+                let run (ord : n list list -> n list list) : string * string =
+                  let rb = Buffer.create 64 and kb = Buffer.create 64 in
+                  (match optimise o ord sws r with
+                   | Panic _ -> Buffer.add_string rb " x"
+                   | Err _ -> Buffer.add_string rb " ?"
+                   | Ok r' ->
+                       if docs <> [] then Buffer.add_char rb ' ';
+                       List.iter (fun kv ->
+                           let seen = Hashtbl.create 8 in
+                           let d : docq = fun k -> Hashtbl.replace seen (List.map int_of_n k) k; Ok (obj_find kv k) in
+                           let r3 = solve_rule3 o r'.r_det d in
+                           let ch = res_char r3 in
+                           Buffer.add_char rb ch;
+                           if want_reads then begin
+                             if ch = 'p' then Buffer.add_string kb " (panic)"
+                             else begin
+                               let keys = List.sort compare_str (Hashtbl.fold (fun _ k acc -> k :: acc) seen []) in
+                               Buffer.add_string kb " (";
+                               List.iteri (fun i k ->
+                                   if i > 0 then Buffer.add_char kb ' ';
+                                   Buffer.add_string kb "(s";
+                                   List.iter (fun c -> Buffer.add_char kb ' '; Buffer.add_string kb (string_of_int (int_of_n c))) k;
+                                   Buffer.add_char kb ')') keys;
+                               Buffer.add_string kb ")"
+                             end
+                           end) docs);
+                  (Buffer.contents rb, Buffer.contents kb) in
+                let (outs, complete) = explore run in
+                let uniq l = List.sort_uniq compare l in
+                let rs = uniq (List.map fst outs) and ks = uniq (List.map snd outs) in
+                (match rs with
+                 | [one] when complete -> Buffer.add_string res_parts (Printf.sprintf " (res %d%s)" sw one)
+                 | _ ->
+                     Buffer.add_string res_parts (Printf.sprintf " (res_alt %d %s" sw (if complete then "complete" else "partial"));
+                     List.iter (fun x -> Buffer.add_string res_parts (Printf.sprintf " (res %d%s)" sw x)) rs;
+                     Buffer.add_string res_parts ")");
+                if want_reads then
+                  (match ks with
+                   | [one] when complete -> Buffer.add_string reads_parts (Printf.sprintf " (reads %d%s)" sw one)
+                   | _ ->
+                       Buffer.add_string reads_parts (Printf.sprintf " (reads_alt %d %s" sw (if complete then "complete" else "partial"));
+                       List.iter (fun x -> Buffer.add_string reads_parts (Printf.sprintf " (reads %d%s)" sw x)) ks;
+                       Buffer.add_string reads_parts ")")) sws;
+            add (Buffer.contents res_parts);
+            add (Buffer.contents reads_parts);
+            if !want_known then begin
+              (* model-only extra, stripped by the orchestrator before the line diff *)
+              let kb = Buffer.create 64 in
+              List.iter (fun sw ->
+                  let sws = { sw_coalesce = sw land 1 <> 0; sw_shake = sw land 2 <> 0;
+                              sw_rewrite = sw land 4 <> 0; sw_matrix = sw land 8 <> 0 } in
+                  let cls = known_classes o (fun k -> k) sws r.r_det in
+                  Buffer.add_string kb (Printf.sprintf " (%d" sw);
+                  List.iter (fun c -> Buffer.add_string kb (Printf.sprintf " %d" (int_of_n c))) cls;
+                  Buffer.add_string kb ")") sws;
+              known_extra := Printf.sprintf " (k%s)" (Buffer.contents kb)
+            end;
             if dec_bool f_validate then begin
               match validate o r with
               | Ok [] -> add " (validate ok)"
               | Ok l -> add " (validate err"; List.iter (fun i -> add " "; p_z i) l; add ")"
               | Panic _ -> add " (validate panic)"
               | Err _ -> add " (validate ?)"
-            end
+            end;
+            add !known_extra;
+            known_extra := ""
       end;
       add ")"
   | L [A _; id; A "skip"] | L [id; A "skip"] -> add "("; add (atom id); add " skip)"
@@ -424,7 +517,7 @@ let case_id (x : sx) : string =
   | _ -> "?"
 
 let () =
-  Array.iter (fun a -> if a = "--ic" then ic := true) Sys.argv;
+  Array.iter (fun a -> if a = "--ic" then ic := true; if a = "--known" then want_known := true) Sys.argv;
   let out = stdout in
   (try
      while true do
